@@ -56,20 +56,95 @@ Proof. destruct a, b; cbn; try discriminate; [|reflexivity]. intros H. f_equal. 
 Lemma eclass_eqb_eq a b : eclass_eqb a b = true -> a = b.
 Proof. destruct a, b; cbn; try discriminate; reflexivity. Qed.
 
-Lemma row_okb_sound cr : row_okb cr = true -> row_ok cr /\ cr_uuid cr = [].
+(* where the boolean agreement test holds, the code of this run reads as the reference does *)
+Lemma cond_agreesb_sound c : cond_agreesb c = true -> row_args c = ref_args c /\ noop_args c = ref_args c.
 Proof.
-  unfold row_okb, row_ok. intros H. apply andb_true_iff in H as [H H3]. apply andb_true_iff in H as [H1 H2].
-  assert (Hu : cr_uuid cr = []) by (destruct (cr_uuid cr); [reflexivity|discriminate]).
-  split; [|exact Hu]. split.
-  - rewrite forallb_forall in H1. apply Forall_forall. intros e He. specialize (H1 e He). unfold edge_okb in H1. unfold edge_ok.
-    destruct (c_cname (e_cond e)); [reflexivity|discriminate].
+  unfold cond_agreesb, row_args, noop_args, by_name_args, ref_args, has_group_typed. intros H.
+  destruct (str_eqb (c_type c) has_group_s); [|rewrite !andb_false_r; auto].
+  rewrite !andb_true_r. cbn [negb] in H. rewrite orb_false_r in H. apply andb_true_iff in H as [-> ->]. auto.
+Qed.
+
+Lemma no_paddingb_sound es : no_paddingb es = true -> drop_padding es = es.
+Proof.
+  unfold no_paddingb, drop_padding. destruct es as [|e0 rest]; [reflexivity|]. cbn [tl]. intros H. f_equal.
+  induction rest as [|e r IH]; [reflexivity|]. cbn [forallb filter] in *. apply andb_true_iff in H as [H1 H2].
+  rewrite H1. f_equal. apply IH, H2.
+Qed.
+
+Lemma edges_agreeb_sound es :
+  edges_agreeb es = true ->
+  read_edges es = drop_padding es /\ Forall (fun e => row_args (e_cond e) = ref_args (e_cond e) /\ noop_args (e_cond e) = ref_args (e_cond e)) es.
+Proof.
+  unfold edges_agreeb. intros H. apply andb_true_iff in H as [H1 H2]. split.
+  - unfold read_edges. destruct padding_edges_dropped_at_read; [reflexivity|]. cbn [orb] in H1. symmetry. apply no_paddingb_sound, H1.
+  - rewrite forallb_forall in H2. apply Forall_forall. intros e He. apply cond_agreesb_sound, H2, He.
+Qed.
+
+(* ---------------------------------------------------------------- the invented names of a sheet *)
+Lemma gnameb_other bases : gnameb bases s_Other = true.
+Proof. unfold gnameb. rewrite str_eqb_refl. reflexivity. Qed.
+
+Definition sheet_names (rows : list crow) : GenNames :=
+  {| gname := fun n => gnameb (sheet_bases rows) n = true; gname_other := gnameb_other _ |}.
+
+Lemma alts_length k : length (alts k) = 4 * k.
+Proof. induction k as [|k IH]; cbn [alts]; [reflexivity|]. rewrite app_length, IH. cbn. lia. Qed.
+
+Lemma gnameb_base bases b k : In b bases -> gnameb bases (b ++ alts k) = true.
+Proof.
+  intros Hin. unfold gnameb. apply orb_true_iff. right. apply existsb_exists. exists b. split; [exact Hin|].
+  apply existsb_exists. exists k. split; [|apply str_eqb_refl].
+  apply in_seq. rewrite app_length, alts_length. lia.
+Qed.
+
+Lemma sheet_bases_in rows cr e b :
+  In cr rows -> In e (r_edges (cr_row cr)) -> In b (cond_bases (e_cond e)) -> In b (sheet_bases rows).
+Proof.
+  intros H1 H2 H3. unfold sheet_bases. apply in_flat_map. exists cr. split; [exact H1|].
+  apply in_flat_map. exists e. split; [exact H2|exact H3].
+Qed.
+
+(* every condition of the sheet gets a name of the sheet's invented names *)
+Lemma gen_ok_sheet rows cr e : In cr rows -> In e (r_edges (cr_row cr)) -> @gen_ok (sheet_names rows) (e_cond e).
+Proof.
+  intros H1 H2 k. unfold sheet_names. cbn [gname].
+  split; apply gnameb_base; eapply sheet_bases_in; eauto; unfold cond_bases; [left|right; left]; reflexivity.
+Qed.
+
+Lemma starts_with_app p x : starts_with p (p ++ x) = true.
+Proof. induction p as [|a p IH]; cbn; [reflexivity|]. rewrite N.eqb_refl. exact IH. Qed.
+
+Lemma edge_okb_sound rows cr e :
+  In cr rows -> In e (r_edges (cr_row cr)) -> edge_okb (sheet_bases rows) e = true ->
+  @cname_ok (sheet_names rows) (e_cond e) /\ ~ is_bucket_name (bucket_name (e_cond e)).
+Proof.
+  intros H1 H2. unfold edge_okb, cname_ok. intros H. apply andb_true_iff in H as [H Hbk]. split.
+  - destruct explicit_names_claimed; [exact I|]. cbn [orb] in H.
+    destruct (c_cname (e_cond e)) as [|a nm] eqn:En; [eapply gen_ok_sheet; eauto|].
+    apply andb_true_iff in H as [Ha Hb]. split.
+    + unfold sheet_names. cbn [gname]. intros Hg. rewrite Hg in Ha. discriminate.
+    + intros E. rewrite E, str_eqb_refl in Hb. discriminate.
+  - intros (k & E). rewrite E, starts_with_app in Hbk. discriminate.
+Qed.
+
+Lemma row_okb_sound rows cr :
+  In cr rows -> row_okb (sheet_bases rows) cr = true -> @row_ok (sheet_names rows) cr /\ reads_same cr.
+Proof.
+  intros Hin. unfold row_okb, row_ok. intros H. apply andb_true_iff in H as [H H3]. apply andb_true_iff in H as [H H2]. apply andb_true_iff in H as [H0 H1].
+  apply edges_agreeb_sound in H0 as [Hsame Hargs].
+  split; [|exact Hsame]. split; [|split].
+  - rewrite forallb_forall in H1. rewrite Forall_forall in Hargs. apply Forall_forall. intros e He. specialize (H1 e He).
+    unfold edge_ok, cond_ok. destruct (Hargs e He) as [Ha Hb]. split; [exact Ha|]. split; [exact Hb|].
+    apply (edge_okb_sound rows cr e Hin He H1).
+  - intros Hne. destruct (cr_uuid cr) as [|a u] eqn:Eu; [contradiction|]. apply andb_true_iff in H2 as [E1 E2].
+    apply str_eqb_eq in E1. split; [exact E1|]. intros E. rewrite E, str_eqb_refl in E2. discriminate.
   - destruct (r_type (cr_row cr)) as [cls acts dec0| | | | | |]; try exact I.
-    destruct (r_node_name (cr_row cr)); [|discriminate]. rewrite Hu in H3.
     apply andb_true_iff in H3 as [H3 H6]. apply andb_true_iff in H3 as [H4 H5].
-    split; [reflexivity|]. split; [exact Hu|]. split; [apply eclass_eqb_eq, H4|]. split; [apply rdec_eqb_shallow_eq, H5|].
+    split; [apply eclass_eqb_eq, H4|]. split; [apply rdec_eqb_shallow_eq, H5|].
     destruct (cr_kind cr); try discriminate.
     + apply Nat.leb_le, H6.
     + apply Nat.leb_le, H6.
+    + destruct acts; [reflexivity|discriminate].
     + destruct acts; [reflexivity|discriminate].
     + destruct acts; [reflexivity|discriminate].
     + destruct acts; [reflexivity|discriminate].
@@ -78,12 +153,36 @@ Proof.
     + apply Nat.eqb_eq, H6.
 Qed.
 
-Theorem fragb_sound rows : fragb rows = true -> Forall row_ok rows /\ no_given rows /\ starts_with_node rows.
+(* Decided for the code of this run (the three constants are probed from it): does it read rows as the reference
+   does?  Padding entries: in every row when _parse_next_row drops them, otherwise only in rows that have none;
+   has_group tests: in every condition when both add_exit functions write [None, name], otherwise only in
+   conditions of another type. *)
+Theorem reading_agrees_decided :
+  (if padding_edges_dropped_at_read then forall cr, reads_same cr
+   else forall cr, no_paddingb (r_edges (cr_row cr)) = true -> reads_same cr)
+  /\ (if has_group_edges_by_name && has_group_by_name_from_noop
+      then forall c, row_args c = ref_args c /\ noop_args c = ref_args c
+      else forall c, has_group_typed c = false -> row_args c = ref_args c /\ noop_args c = ref_args c).
 Proof.
-  unfold fragb. intros H. apply andb_true_iff in H as [H1 H2]. rewrite forallb_forall in H1. split; [|split].
-  - apply Forall_forall. intros cr Hcr. apply row_okb_sound, H1, Hcr.
-  - intros cr Hcr. apply row_okb_sound, H1, Hcr.
-  - unfold starts_with_node. destruct rows as [|cr r]; [exact I|]. destruct (r_type (cr_row cr)); try discriminate. exact I.
+  split.
+  - unfold reads_same, read_edges. destruct padding_edges_dropped_at_read; [reflexivity|].
+    intros cr H. symmetry. apply no_paddingb_sound, H.
+  - destruct (has_group_edges_by_name && has_group_by_name_from_noop) eqn:E.
+    + intros c. apply cond_agreesb_sound. unfold cond_agreesb. rewrite E. reflexivity.
+    + intros c H. apply cond_agreesb_sound. unfold cond_agreesb. rewrite H. apply orb_true_r.
+Qed.
+
+(* the premise on category names, decided *)
+Theorem names_decided {G : GenNames} c :
+  if explicit_names_claimed then cname_ok c
+  else cname_ok c <-> match c_cname c with [] => gen_ok c | nm => ~ gname nm /\ nm <> s_NoResponse end.
+Proof. unfold cname_ok. destruct explicit_names_claimed; [exact I|tauto]. Qed.
+
+Theorem fragb_sound rows : fragb rows = true -> Forall (@row_ok (sheet_names rows)) rows /\ Forall reads_same rows.
+Proof.
+  unfold fragb. intros H1. rewrite forallb_forall in H1. split.
+  - apply Forall_forall. intros cr Hcr. apply (row_okb_sound rows cr Hcr), H1, Hcr.
+  - apply Forall_forall. intros cr Hcr. apply (row_okb_sound rows cr Hcr), H1, Hcr.
 Qed.
 
 (* the theorem in the form the harness evaluates: on a sheet that passes the fragment test *)
@@ -95,5 +194,6 @@ Theorem compile_refines_rowsem_fragb fresh validate name rows f ref :
   (forall t, FlowFacts.traces ref t -> exists t', FlowFacts.traces f t' /\ Forall2 (ematch sexp SexpEq.smatch) t t')
   /\ (forall t, FlowFacts.traces f t -> exists t', FlowFacts.traces ref t' /\ Forall2 (ematch sexp (fun a b => SexpEq.smatch b a)) t t').
 Proof.
-  intros Hi Hs Hv Hfr. destruct (fragb_sound rows Hfr) as (H1 & H2 & H3). eapply compile_refines_rowsem_partial; eauto.
+  intros Hi Hs Hv Hfr. destruct (fragb_sound rows Hfr) as (H1 & H2).
+  eapply (@compile_refines_rowsem_partial (sheet_names rows)); eauto.
 Qed.
